@@ -68,6 +68,10 @@ CONTRACTS = {
             "len(%s) == 2 or len(%s) == 3" % (S, S),
             "oViolation.action is not None",
             "implies(self.number_of_spaces == 0, len(%s) == 3 and isinstance(%s[1], %s))" % (S, S, WS),
+            # zero spaces are only ever requested for a region whose middle token is white space (the analysis of adjacent
+            # tokens asks for at least one space or for nothing)
+            "implies(oViolation.action['spaces'] == 0, len(%s) == 3 and isinstance(%s[1], %s))" % (S, S, WS),
+            "implies(isinstance(self.number_of_spaces, int), oViolation.action['spaces'] == self.number_of_spaces)",
         ],
         modifies=["oViolation.oTokens.lTokens", "heap:item.value", "heap:item.code_tags", "heap:item.has_tabs"],
         ensures=[
@@ -75,8 +79,10 @@ CONTRACTS = {
             "ncr(%s) == ncr(old(%s))" % (S, S),
             "forall(lambda k: implies(not isinstance(old(%s)[k], parser.whitespace), old(%s)[k].value == old(values(%s))[k]), 0, len(old(%s)))" % (S, S, S, S),
             # C10: the middle token is white space of exactly the requested width (or gone when 0 is requested)
-            "implies(self.number_of_spaces == 0, len(%s) == 2)" % S,
-            "implies(self.number_of_spaces != 0, isinstance(%s[1], %s) and %s[1].value == ' ' * old(oViolation.action['spaces']))" % (S, WS, S),
+            # (stated over the requested width, not over how the code branches: removing the token and leaving an empty
+            # white-space token are both "zero spaces")
+            "implies(old(oViolation.action['spaces']) > 0, isinstance(%s[1], %s) and %s[1].value == ' ' * old(oViolation.action['spaces']))" % (S, WS, S),
+            "implies(old(oViolation.action['spaces']) <= 0, len(%s) < len(old(%s)) or not isinstance(%s[1], %s) or %s[1].value == '')" % (S, S, S, WS, S),
         ],
     ),
     # ------------------------------------------------------------------ token_case (phase 6)
@@ -162,6 +168,8 @@ VF_WS = (
     "self.violations[k].action is not None"
     " and (len({V}) == 3 or len({V}) == 2)"
     " and implies(self.number_of_spaces == 0, len({V}) == 3 and isinstance({V}[1], parser.whitespace))"
+    " and implies(self.violations[k].action['spaces'] == 0, len({V}) == 3 and isinstance({V}[1], parser.whitespace))"
+    " and implies(isinstance(self.number_of_spaces, int), self.violations[k].action['spaces'] == self.number_of_spaces)"
 ).format(V=V_.format(k="k"), NB=NB)
 
 WSFIELDS = {"vsg.violation.New.action": "opt[rec{spaces:int}]", "vsg.violation.New.remap": "bool", "vsg.violation.New.fix_blank_lines": "bool", "vsg.violation.New.sSolution": "str"}
@@ -211,7 +219,7 @@ CONTRACTS["vsg.rules.whitespace_between_tokens.Rule.create_violation"] = dict(
         "len(self.violations) == len(old(self.violations)) or len(self.violations) == len(old(self.violations)) + 1",
         "self.violations[:len(old(self.violations))] == old(self.violations)",
         "forall(lambda j: self.violations[j] == old(self.violations)[j], 0, len(old(self.violations)))",
-        "implies(len(self.violations) > len(old(self.violations)), self.violations[len(old(self.violations))].oTokens == oToi and self.violations[len(old(self.violations))].action is not None)",
+        "implies(len(self.violations) > len(old(self.violations)), self.violations[len(old(self.violations))].oTokens == oToi and self.violations[len(old(self.violations))].action is not None and self.violations[len(old(self.violations))].action['spaces'] == iNumSpaces)",
     ],
 )
 
